@@ -44,7 +44,7 @@ from collections import defaultdict
 from functools import singledispatchmethod
 
 from ufl.algorithms.map_integrands import map_integrands
-from ufl.algorithms.remove_component_tensors import IndexReplacer
+from ufl.algorithms.remove_component_tensors import IndexReplacer, replace_indices
 from ufl.classes import (
     Division,
     Expr,
@@ -116,7 +116,7 @@ class IndexSumSimplifier(DAGTraverser):
         if rule is None:
             rule = IndexReplacer({k: a})
             self._rules[(k, a)] = rule
-        return map_expr_dag(rule, expr)
+        return replace_indices(expr, rule.fimap, rule=rule)
 
     @abstractmethod
     def match(self, with_k, rest, k):
